@@ -50,6 +50,16 @@ def replay_state(st):
                             bad.append(("C17.boundary-multiple", w, a, float(al[k]), q))
                         if np.max(np.abs(hit[k] - a * Bq[k])) > 1e-9 * (1 + a) * 4:
                             bad.append(("C17.boundary-multiple", dict(op="B_with_P", **w), (a * Bq[k]).tolist(), hit[k].tolist(), q))
+                    # the boundary multiple is homogeneous of degree -1 in the query: tiny and huge query vectors
+                    # (exact powers of two, so the twins are exact in floating point)
+                    for kk in (2.0 ** -40, 2.0 ** 40):
+                        alk = np.asarray(dreye.alpha_for_B_with_P(Bq * kk, E.copy()), float)
+                        hitk = np.asarray(dreye.B_with_P(Bq * kk, E.copy()), float)
+                        fin = np.isfinite(al)
+                        if np.any(fin) and (np.any(~np.isfinite(alk[fin])) or np.max(np.abs(alk[fin] * kk - al[fin]) / (1 + np.abs(al[fin]))) > 1e-9):
+                            bad.append(("C17.boundary-multiple", dict(representation="query scaled by %g" % kk, **w), al.tolist(), (alk * kk).tolist(), None))
+                        elif np.any(fin) and np.max(np.abs(hitk[fin] - hit[fin])) > 1e-8 * (1 + np.max(np.abs(hit[fin]))):
+                            bad.append(("C17.boundary-multiple", dict(op="B_with_P", representation="query scaled by %g" % kk, **w), hit.tolist(), hitk.tolist(), None))
                 X = np.asarray(dreye.proj_B_to_hull(Bq.copy(), E.copy()), float)
                 # the same (integer-valued) queries handed over as an integer array, and read-only
                 Xi = np.asarray(dreye.proj_B_to_hull(Bq.astype(int), E.copy()), float)
